@@ -106,12 +106,13 @@ def steps (disable : Bool) (mtu : Nat) : PayState → List Bytes → List Bytes 
 def payload (disable : Bool) (mtu : UInt16) (st : PayState) (input : Bytes) : List Bytes × PayState :=
   if input.isEmpty then ([], st) else steps disable mtu.toNat st (emitNalus input)
 
-/-- a history of calls on one instance -/
-def payloadHist (disable : Bool) : PayState → List (UInt16 × Bytes) → List (List Bytes)
+/-- a history of calls on one instance; `DisableStapA` is a public field and may be changed
+    between calls, so every call carries the value in force -/
+def payloadHist : PayState → List (Bool × UInt16 × Bytes) → List (List Bytes)
   | _, [] => []
-  | st, (m, i) :: cs =>
-    let (o, st') := payload disable m st i
-    o :: payloadHist disable st' cs
+  | st, (d, m, i) :: cs =>
+    let (o, st') := payload d m st i
+    o :: payloadHist st' cs
 
 /-! ### depacketizer -/
 
